@@ -175,9 +175,10 @@ func (prop) CanonModel(op, line string) string {
 // runner
 
 type specEvent struct {
-	name string
-	data []byte
-	nt   int // topics including the default topic
+	name   string
+	data   []byte
+	nt     int      // topics including the default topic
+	topics [][]byte // the topics the caller gave for THIS event (the default topic comes before them)
 }
 
 type runner struct {
@@ -210,6 +211,10 @@ type runner struct {
 	opIdx       int
 	dbsToClose  []*db.DB
 	treeStateOK bool
+
+	full    bool            // print every field of every event (the wide pseudo-property C16WIDE)
+	guard   *argGuard       // the byte strings handed into the framework (guard.go)
+	touched map[string]bool // state keys (without the db prefix) the scripts of the current context set or deleted
 }
 
 func (r *runner) fail(sig, detail string) {
@@ -219,7 +224,7 @@ func (r *runner) fail(sig, detail string) {
 func (r *runner) newHandler() {
 	exec := statemachine.NewExecuter()
 	exec.Init(nopLogger{})
-	mod := &scrModule{}
+	mod := &scrModule{g: r.guard}
 	if err := exec.AddModule(mod); err != nil {
 		panic(err)
 	}
@@ -249,6 +254,8 @@ func (r *runner) reset() {
 	r.prevHeight = map[uint32]uint32{}
 	r.diffAt = map[uint32]bool{}
 	r.nonce = 0
+	r.guard = &argGuard{}
+	r.touched = map[string]bool{}
 	r.newHandler()
 }
 
@@ -307,7 +314,7 @@ func (r *runner) newTx(cmd, script string) *blockchain.Transaction {
 		Command:         cmd,
 		Nonce:           r.nonce,
 		SenderPublicKey: bytes.Repeat([]byte{7}, 32),
-		Params:          []byte(script),
+		Params:          r.guard.give("transaction params", []byte(script)),
 		Signatures:      []codec.Hex{bytes.Repeat([]byte{9}, 64)},
 	}
 	tx.Init()
@@ -332,6 +339,55 @@ func showEvents(evs []*blockchain.Event) string {
 	return strings.Join(parts, ";")
 }
 
+// showTopics renders a topic list: `T` stands for the default topic of the call (the transaction id / the
+// constant of the block hook) in first position, every other topic is printed in full.
+func showTopics(topics []codec.Hex, def []byte) string {
+	if len(topics) == 0 {
+		return "none"
+	}
+	parts := make([]string, len(topics))
+	for i, t := range topics {
+		if i == 0 && bytes.Equal(t, def) {
+			parts[i] = "T"
+		} else {
+			parts[i] = corr.Hex(t)
+		}
+	}
+	return strings.Join(parts, "+")
+}
+
+// showEventsFull prints EVERY field of every event: module, name, index, height, the whole topic list, the data.
+func showEventsFull(evs []*blockchain.Event, def []byte) string {
+	if len(evs) == 0 {
+		return "-"
+	}
+	parts := make([]string, len(evs))
+	for i, e := range evs {
+		parts[i] = fmt.Sprintf("%s.%s.%d.%d.%s.%s", e.Module, e.Name, e.Index, e.Height, showTopics(e.Topics, def), corr.Hex(e.Data))
+	}
+	return strings.Join(parts, ";")
+}
+
+func (r *runner) showEv(evs []*blockchain.Event, def []byte) string {
+	if r.full {
+		return showEventsFull(evs, def)
+	}
+	return showEvents(evs)
+}
+
+// touch records the state keys the items of a section set or delete.
+func (r *runner) touch(sec string) {
+	items, err := parseSection(sec)
+	if err != nil || r.touched == nil {
+		return
+	}
+	for _, it := range items {
+		if it.kind == 's' || it.kind == 'd' {
+			r.touched[string(append(storeFullPrefix(it.st), it.key...))] = true
+		}
+	}
+}
+
 // ---------------------------------------------------------------------------------------------
 // specification of a script section on a plain map
 
@@ -350,11 +406,12 @@ func specSection(m map[string][]byte, sec string, evs *[]specEvent, revertible *
 			m[k] = v
 		}
 	}
-	add := func(name string, data []byte, nt int, rev bool) bool {
+	add := func(name string, data []byte, topics [][]byte, rev bool) bool {
+		nt := len(topics)
 		if nt+1 > 4 || len(data) > 1024 || strings.Contains(name, "_") {
 			return false
 		}
-		*evs = append(*evs, specEvent{name: name, data: data, nt: nt + 1})
+		*evs = append(*evs, specEvent{name: name, data: data, nt: nt + 1, topics: topics})
 		*revertible = append(*revertible, rev)
 		return true
 	}
@@ -371,7 +428,7 @@ func specSection(m map[string][]byte, sec string, evs *[]specEvent, revertible *
 			if !ok {
 				name = "miss"
 			}
-			if !add(name, v, 0, true) {
+			if !add(name, v, nil, true) {
 				return false
 			}
 		case 'c':
@@ -379,12 +436,12 @@ func specSection(m map[string][]byte, sec string, evs *[]specEvent, revertible *
 			if !ok || string(v) != string(it.val) {
 				return false
 			}
-		case 'e':
-			if !add("rev", it.val, it.nt, true) {
+		case 'e', 'E':
+			if !add("rev", it.val, callerTopics(it), true) {
 				return false
 			}
-		case 'u':
-			if !add("unr", it.val, it.nt, false) {
+		case 'u', 'U':
+			if !add("unr", it.val, callerTopics(it), false) {
 				return false
 			}
 		case 'b':
@@ -462,13 +519,26 @@ func (r *runner) checkEventShape(evs []*blockchain.Event, height uint32, topic [
 	}
 }
 
-func sameEvents(evs []*blockchain.Event, want []specEvent) bool {
+// sameEvents compares EVERY field of EVERY event with the specification: module, name, data, the whole topic
+// list (the default topic of the call followed by the topics the script gave for THIS event), height and index.
+func sameEvents(evs []*blockchain.Event, want []specEvent, def []byte, height uint32) bool {
 	if len(evs) != len(want) {
 		return false
 	}
 	for i, e := range evs {
 		if e.Module != modName || e.Name != want[i].name || !bytes.Equal(e.Data, want[i].data) || len(e.Topics) != want[i].nt {
 			return false
+		}
+		if e.Index != uint32(i) || e.Height != height {
+			return false
+		}
+		if len(e.Topics) != 1+len(want[i].topics) || !bytes.Equal(e.Topics[0], def) {
+			return false
+		}
+		for j, t := range want[i].topics {
+			if !bytes.Equal(e.Topics[1+j], t) {
+				return false
+			}
 		}
 	}
 	return true
@@ -477,7 +547,23 @@ func sameEvents(evs []*blockchain.Event, want []specEvent) bool {
 func showSpecEvents(evs []specEvent) string {
 	parts := make([]string, len(evs))
 	for i, e := range evs {
-		parts[i] = fmt.Sprintf("%s.%d.%s", e.name, e.nt, showData(e.data))
+		ts := []string{"T"}
+		for _, t := range e.topics {
+			ts = append(ts, corr.Hex(t))
+		}
+		parts[i] = fmt.Sprintf("%s.%s.%d.%s.%s", modName, e.name, i, strings.Join(ts, "+"), showData(e.data))
+	}
+	return strings.Join(parts, ";")
+}
+
+// showGot renders events for the details of oracle failures (all topics).
+func showGot(evs []*blockchain.Event, def []byte) string {
+	if len(evs) == 0 {
+		return "-"
+	}
+	parts := make([]string, len(evs))
+	for i, e := range evs {
+		parts[i] = fmt.Sprintf("%s.%s.%d.%s.%s", e.Module, e.Name, e.Index, showTopics(e.Topics, def), showData(e.Data))
 	}
 	return strings.Join(parts, ";")
 }
@@ -508,6 +594,7 @@ func (r *runner) step(op string) string {
 		}
 		r.ctxID, r.ctxHeight, r.txs = res.ContextID, h, nil
 		r.committed = false
+		r.touched = map[string]bool{}
 		r.refStaged = nil
 		if r.refDBKnown {
 			r.refStaged = copyMap(r.refDB)
@@ -523,9 +610,10 @@ func (r *runner) step(op string) string {
 
 	case "bte", "ate":
 		sec := w[1]
-		assets := []*blockchain.BlockAsset{{Module: modName, Data: []byte(sec)}}
+		assets := []*blockchain.BlockAsset{{Module: modName, Data: r.guard.give("asset data", []byte(sec))}}
 		var evs []*blockchain.Event
 		var err error
+		r.touch(sec)
 		topic := statemachine.EventTopicBeforeTransactionsExecute
 		if w[0] == "bte" {
 			var res *labi.BeforeTransactionsExecuteResponse
@@ -553,11 +641,11 @@ func (r *runner) step(op string) string {
 			if !specSection(r.refStaged, sec, &want, &rev) {
 				r.fail("block-hook-verdict", op+": hook succeeded, the script fails")
 				r.refStaged = nil
-			} else if !sameEvents(evs, want) {
-				r.fail("block-hook-events", fmt.Sprintf("%s: got %s want %s", op, showEvents(evs), showSpecEvents(want)))
+			} else if !sameEvents(evs, want, topic, r.ctxHeight) {
+				r.fail("block-hook-events", fmt.Sprintf("%s: got %s want %s", op, showGot(evs, topic), showSpecEvents(want)))
 			}
 		}
-		return "ok ev=" + showEvents(evs)
+		return "ok ev=" + r.showEv(evs, topic)
 
 	case "vtx":
 		tx := r.newTx(w[1], w[2])
@@ -620,6 +708,11 @@ func (r *runner) step(op string) string {
 		} else {
 			view = r.refStaged
 			r.txs = append(r.txs, tx)
+			if sec, err := splitScript(w[2]); err == nil {
+				r.touch(sec[1])
+				r.touch(sec[2])
+				r.touch(sec[3])
+			}
 		}
 		r.lastTxFail = false
 		if view != nil {
@@ -627,12 +720,12 @@ func (r *runner) step(op string) string {
 			if res.Result != code {
 				r.fail("exec-result-code", fmt.Sprintf("%s: result %d want %d", op, res.Result, code))
 			}
-			if known && !sameEvents(res.Events, evs) {
+			if known && !sameEvents(res.Events, evs, tx.ID, evHeight) {
 				sig := "success-events-differ"
 				if cmdFailed {
 					sig = "failed-command-events"
 				}
-				r.fail(sig, fmt.Sprintf("%s: got %s want %s", op, showEvents(res.Events), showSpecEvents(evs)))
+				r.fail(sig, fmt.Sprintf("%s: got %s want %s", op, showGot(res.Events, tx.ID), showSpecEvents(evs)))
 			}
 			if !dry {
 				r.lastTxFail = cmdFailed
@@ -643,7 +736,7 @@ func (r *runner) step(op string) string {
 				}
 			}
 		}
-		return fmt.Sprintf("res=%d ev=%s", res.Result, showEvents(res.Events))
+		return fmt.Sprintf("res=%d ev=%s", res.Result, r.showEv(res.Events, tx.ID))
 
 	case "dump":
 		st := "none"
@@ -680,14 +773,14 @@ func (r *runner) step(op string) string {
 	case "commit":
 		// commit <none|ok|bad> [dry]
 		dry := len(w) > 2 && w[2] == "dry"
-		req := &labi.CommitRequest{ContextID: r.ctxID, StateRoot: r.curRoot, DryRun: dry}
+		req := &labi.CommitRequest{ContextID: r.ctxID, StateRoot: r.guard.give("Commit.StateRoot", r.curRoot), DryRun: dry}
 		switch w[1] {
 		case "ok":
 			if r.refStaged != nil {
-				req.ExpectedStateRoot = freshRootOfState(r.refStaged)
+				req.ExpectedStateRoot = r.guard.give("Commit.ExpectedStateRoot", freshRootOfState(r.refStaged))
 			}
 		case "bad":
-			req.ExpectedStateRoot = bogusRoot
+			req.ExpectedStateRoot = r.guard.give("Commit.ExpectedStateRoot", bogusRoot)
 		}
 		hadCtx := r.ctxID != nil
 		res, err := r.handler.Commit(req)
@@ -722,6 +815,10 @@ func (r *runner) step(op string) string {
 		if h, root, ok := r.treeState(); !ok || h != r.ctxHeight || !bytes.Equal(root, res.StateRoot) {
 			r.fail("commit-tree-state", fmt.Sprintf("tree state %s after commit at %d root %x", r.showTreeState(), r.ctxHeight, []byte(res.StateRoot)))
 		}
+		// the diff STORED for the block names exactly the keys the block changed, with their previous values
+		if !r.committed && r.refDBKnown && r.refStaged != nil {
+			r.checkStoredDiff(r.ctxHeight, r.refDB, dbm)
+		}
 		if r.committed {
 			// a context committed twice (the engine never does this): its second diff is relative to a
 			// stale overlay, nothing is claimed about reverting to earlier states any more
@@ -747,7 +844,7 @@ func (r *runner) step(op string) string {
 
 	case "revert":
 		// revert <none|ok|bad>
-		req := &labi.RevertRequest{ContextID: r.ctxID, StateRoot: r.curRoot}
+		req := &labi.RevertRequest{ContextID: r.ctxID, StateRoot: r.guard.give("Revert.StateRoot", r.curRoot)}
 		h := r.ctxHeight
 		switch w[1] {
 		case "ok":
@@ -786,6 +883,14 @@ func (r *runner) step(op string) string {
 		r.curRoot = res.StateRoot
 		r.refStaged = nil // the context is not used after a revert
 		return "ok root=" + corr.Hex(res.StateRoot)
+
+	case "diff":
+		// diff <height>: the diff stored for the block of that height, decoded, keys without the db prefix
+		d, ok := r.storedDiff(uint32(atoi(w[1])))
+		if !ok {
+			return "none"
+		}
+		return showDiff(d)
 
 	case "fin":
 		f := uint32(atoi(w[1]))
@@ -875,8 +980,11 @@ func atoi(s string) int {
 	return n
 }
 
-func (prop) RunImpl(c corr.Case) ([]string, []corr.Fail) {
-	r := &runner{}
+func (prop) RunImpl(c corr.Case) ([]string, []corr.Fail) { return runCase(c, false) }
+
+// runCase runs one case; full: every field of every event is printed (the wide pseudo-property C16WIDE, wide.go).
+func runCase(c corr.Case, full bool) ([]string, []corr.Fail) {
+	r := &runner{full: full}
 	out := make([]string, 0, len(c.Ops))
 	for i, op := range c.Ops {
 		r.opIdx = i
@@ -888,8 +996,14 @@ func (prop) RunImpl(c corr.Case) ([]string, []corr.Fail) {
 					r.refStaged = nil
 				}
 			}()
+			if r.guard != nil {
+				r.guard.op = i
+			}
 			out = append(out, r.step(op))
 		}()
+		for _, m := range r.guard.check() {
+			r.fail("c16-argument-modified", fmt.Sprintf("after %s: %s", op, m))
+		}
 	}
 	r.close()
 	return out, r.fails
